@@ -88,6 +88,11 @@ func reduceFunction(c *cli.Context) error {
 				rowBuf := make([]string, aggr.ColCount())
 				data := aggr.Data(group)
 				for idx, item := range group.Parts() {
+					if idx >= aggr.GroupColCount() {
+						// a group value that contains the array separator (eg. {0} of the default
+						// {@} extraction) splits into more parts than there are group columns
+						break
+					}
 					rowBuf[idx] = color.Wrap(color.BrightWhite, item)
 				}
 				copy(rowBuf[aggr.GroupColCount():], data)
